@@ -66,6 +66,8 @@ def snapshot(p, order=0, extras=False):
     out['length(.25,.75)'] = q(lambda: p.length(0.25, 0.75))
     out['bbox'] = q(p.bbox)
     out['d'] = q(p.d)
+    out['d(z)'] = q(lambda: p.d(use_closed_attrib=True))
+    out['d(st,z,rel)'] = q(lambda: p.d(useSandT=True, use_closed_attrib=True, rel=True))
     out['iscontinuous'] = q(p.iscontinuous)
     out['t2T(0,.5)'] = q(lambda: p.t2T(0, 0.5))
     for i in range(1, min(len(p), 5)):
@@ -118,8 +120,8 @@ def compare_fresh(ck, p, hist_prefix, mode, cubic, extra_key=''):
         eq = eq and (loose == fresh) and (fresh == loose) and (p == loose) and not (loose != fresh) and hash(loose) == hash(fresh)
         if cubic and not bad:
             order = 1 + len(hist_prefix) % 3
+            b = snapshot(sp.Path(*[type(s)(*s.bpoints()) for s in p]), order)       # (another path is measured in between: tolerance records are per object)
             c = snapshot(loose, order)
-            b = snapshot(sp.Path(*[type(s)(*s.bpoints()) for s in p]), order)
             stale = [k for k in c if not close(c[k], b[k])]
             if stale:
                 ck.disagree(key='Path.length/first-request-tolerance-sticks' + extra_key, site='svgpathtools/path.py:Path._calc_lengths',
@@ -397,6 +399,82 @@ def segment_query_sweep(ck):
                                 driver='query-sweep')
 
 
+def directed_histories(ck):
+    """histories that random walks hit too rarely: (1) accurate query, a mutation that brings in an unmeasured curve, a loose length request, default queries;
+    (2) paths that come from a d-string with Z and are then opened by a mutation, serialised under every option"""
+    import itertools
+    old = sppath._quad_available
+    for scipy_on in (True, False):
+        sppath._quad_available = scipy_on and old
+        try:
+            curved = lambda a, b: sp.CubicBezier(complex(a), complex(a + (b - a) / 4.0, (b - a) * 1.5), complex(a + (b - a) / 2.0, -(b - a)), complex(b))     # noqa
+            for mut in ('append', 'insert', 'setitem', 'slice', 'extend', 'end='):
+                p = sp.Path(sp.Line(0j, 1 + 0j), curved(1, 3))
+                p.length(), p.point(0.4), p.T2t(0.6)
+                new = curved(3, 4)
+                if mut == 'append':
+                    p.append(new)
+                elif mut == 'insert':
+                    p.insert(len(p), new)
+                elif mut == 'setitem':
+                    p[1] = curved(1, 4)
+                elif mut == 'slice':
+                    p[1:] = [curved(1, 2), curved(2, 5)]
+                elif mut == 'extend':
+                    p.extend([new])
+                else:
+                    p.end = 5 + 2j
+                p.length(error=0.5, min_depth=1)
+                ck.case(fp=('directed', 'accurate-mutate-loose', mut, scipy_on), nontrivial=True)
+                fresh = sp.Path(*[type(s_)(*s_.bpoints()) for s_ in p])
+                b_, a_ = snapshot(fresh, 1), snapshot(p, 1)
+                bad_ = [k_ for k_ in a_ if not close(a_[k_], b_[k_])]
+                if bad_:
+                    ck.disagree(key='Path.length/loose-request-after-a-mutation-sticks', site='svgpathtools/path.py:Path._calc_lengths',
+                                what='[scipy %s] accurate queries; %s; length(error=0.5, min_depth=1); then %s differ from a freshly built Path' % (scipy_on, mut, bad_[:5]),
+                                case={'mut': mut, 'scipy': scipy_on}, expected={k_: repr(b_[k_]) for k_ in bad_[:5]}, observed={k_: repr(a_[k_]) for k_ in bad_[:5]}, driver='directed')
+        finally:
+            sppath._quad_available = old
+    opts = [dict(useSandT=u, use_closed_attrib=z, rel=r) for u, z, r in itertools.product((False, True), repeat=3)]
+    for text in ('M0,0 L1,0 L1,1 Z', 'M0,0 L4,0 C4,2 2,3 0,0 Z', 'M0,0 L1,0 L1,1 Z M5,5 L6,6', 'M1,1 Q3,4 5,1 L1,1 z'):
+        for mut in ('pop', 'del[-1]', 'del[1:]', 'setitem', 'insert', 'append', 'end=', 'start=', 'reverse', 'none'):
+            p = sp.parse_path(text)
+            try:
+                if mut == 'pop':
+                    p.pop()
+                elif mut == 'del[-1]':
+                    del p[-1]
+                elif mut == 'del[1:]':
+                    del p[1:]
+                elif mut == 'setitem':
+                    p[-1] = sp.Line(p[-1].start, p[-1].start + (2 + 7j))
+                elif mut == 'insert':
+                    p.insert(1, sp.Line(9 + 9j, 8 + 8j))
+                elif mut == 'append':
+                    p.append(sp.Line(p[-1].end, p[-1].end + (3 - 1j)))
+                elif mut == 'end=':
+                    p.end = p.end + (1 + 1j)
+                elif mut == 'start=':
+                    p.start = p.start - (1 + 2j)
+                elif mut == 'reverse':
+                    p.reverse()
+            except Exception as e:      # noqa
+                continue
+            for o in opts:
+                ck.case(fp=('directed', 'parsed-then-mutated', text, mut, str(o)), nontrivial=True)
+                try:
+                    got, want = p.d(**o), sp.Path(*list(p)).d(**o)
+                    back = sp.parse_path(got)
+                except Exception as e:      # noqa
+                    got, want, back = e, None, None
+                # a path from a d-string carries the parser's closed flag; what it writes must still mean the current segments
+                if isinstance(got, Exception) or list(back) != list(sp.parse_path(want)):
+                    ck.disagree(key='Path.d/after-mutating-a-parsed-path', site='svgpathtools/path.py:Path.d',
+                                what='parse_path(%r); %s; d(%s) = %r, a newly built Path of the same segments writes %r' % (text, mut, o, got, want),
+                                case={'text': text, 'mut': mut, 'opts': o}, expected=repr(want), observed=repr(got), driver='directed')
+                    break
+
+
 def hash_eq(ck):
     """objects that compare equal have equal hashes"""
     pairs = []
@@ -535,6 +613,7 @@ def run(ck):
     segment_level(ck, rnd, 400 if quick else 4000)
     hash_eq(ck)
     segment_query_sweep(ck)
+    directed_histories(ck)
     # V
     suite_traces(ck)
     traces = [[norm_event(h) for h in record_random(rnd, 60)] for _ in range(150 if quick else 1500)]
